@@ -65,6 +65,11 @@ def stream(ctx, n, order, tts, aged, nmaps, nsubs):
         for sign in (1, -1):
             u = sign * u0
             tu = t if sign == 1 else T.neg(t, n)
+            # the empty dictionary: `let` returns its argument (all three value kinds look alike)
+            r0 = M.op('let_bool', {}, u)
+            check(ctx, M, 'let({})', r0, tu, (u, tu))
+            if r0 is not None and r0 != u:
+                ctx.violation('C04:wrong-function', f'let({{}}, {u}) returned another reference {r0}', M.case())
             # constants
             for d in partial_assignments(n):
                 if not d:
